@@ -30,10 +30,6 @@ def format_cardinality(in_val):
     if not in_val:
         return None
 
-    # Catch tuple edge cases (0, 0); (None, None); (0, None); (None, 0)
-    if isinstance(in_val, (tuple, list)) and len(in_val) == 2 and not in_val[0] and not in_val[1]:
-        return None
-
     # Providing a single integer sets the maximum value in a tuple.
     if isinstance(in_val, int) and in_val > 0:
         return None, in_val
@@ -47,13 +43,18 @@ def format_cardinality(in_val):
         min_int = isinstance(v_min, int) and v_min >= 0
         max_int = isinstance(v_max, int) and v_max >= 0
 
+        # Catch tuple edge cases (0, 0); (None, None); (0, None); (None, 0)
+        if (v_min is None or (min_int and v_min == 0)) and \
+                (v_max is None or (max_int and v_max == 0)):
+            return None
+
         if max_int and min_int and v_max >= v_min:
             return v_min, v_max
 
-        if max_int and not v_min:
+        if max_int and v_min is None:
             return None, v_max
 
-        if min_int and not v_max:
+        if min_int and v_max is None:
             return v_min, None
 
         # Use helpful exception message in the following case:
